@@ -2,6 +2,8 @@
 
 from __future__ import annotations
 
+from collections import deque
+
 import optree
 
 from mc import e1, gen
@@ -187,7 +189,9 @@ def check(ctx, tree, leaves0, dsl, cfg):  # noqa: C901, PLR0912, PLR0915
         want_events.append(('node', d.type, d.arity))
 
     post(flat.desc)
-    for method in ('traverse', 'walk'):
+    forms = {'list': list, 'tuple': tuple, 'iterator': iter, 'generator': lambda xs: (x for x in xs),
+             'deque': deque}
+    for method, form in ((m, f) for m in ('traverse', 'walk') for f in forms):
         ctx.count()
         events = []
         leaf_seen = []
@@ -200,7 +204,7 @@ def check(ctx, tree, leaves0, dsl, cfg):  # noqa: C901, PLR0912, PLR0915
         if method == 'traverse':
             def f_node(node):
                 t = type(node)
-                arity = len(U.any_reg(t).flatten(node)[0]) if U.any_reg(t) else (0 if node is None else len(node))
+                arity = len(list(U.any_reg(t).flatten(node)[0])) if U.any_reg(t) else (0 if node is None else len(node))
                 events.append(('node', t, arity))
                 return node
         else:
@@ -208,9 +212,9 @@ def check(ctx, tree, leaves0, dsl, cfg):  # noqa: C901, PLR0912, PLR0915
                 events.append(('node', t, len(children)))
                 return (t, data, children)
         try:
-            out = getattr(spec, method)(flat.leaves, f_node, f_leaf)
+            out = getattr(spec, method)(forms[form](flat.leaves), f_node, f_leaf)  # leaves in every argument form
         except Exception as ex:  # noqa: BLE001
-            ctx.violation(f'{method}-raises', keyf('traverse-raises'), case, repr(ex))
+            ctx.violation(f'{method}-raises', keyf('traverse-raises'), case, f'leaves as {form}: {ex!r}')
             continue
         if events != want_events or len(leaf_seen) != n or any(a is not b for a, b in zip(leaf_seen, flat.leaves)):
             ctx.violation(f'{method}-order', keyf('traverse-order'), case, f'{events!r} vs {want_events!r}')
